@@ -142,7 +142,7 @@ theorem pairStep_writes {p l : Rev} {w : Write} (h : w ∈ (pairStep p l).1) : I
     · simp at h
 
 theorem pairStep_true {p l : Rev} (hna : p.archived = false) (h : (pairStep p l).2 = true) :
-    p.statusPaused = true ∧ p.available = false ∧ ControlsNothingIn p.controllerOf l.objects := by
+    p.statusPaused = true ∧ p.available = false ∧ ControlsNothingIn p.controllerOf l.allObjects := by
   unfold pairStep at h
   split at h
   · simp at h
@@ -168,9 +168,19 @@ theorem pairIter_writes {p l : Rev} {w : Write} (h : w ∈ (pairIter p l).1) : I
     · simp at h
     · exact pairStep_writes h
 
-theorem pairIter_mem {p l o : Rev} (h : o ∈ (pairIter p l).2) :
+/-- An iteration that does not end the pass with an error and reaches
+`intermediateRevisionCanBeArchived` has loaded every ObjectSlice of its latest revision. -/
+theorem iterErr_false {p l : Rev} (he : iterErr p l = false) (hna : p.archived = false)
+    (hlt : p.rev < l.rev) : l.sliceMissing = false := by
+  unfold iterErr revisionObjects at he
+  cases hm : l.sliceMissing
+  · rfl
+  · have : ¬ (l.rev ≤ p.rev) := by omega
+    simp [hna, hm, this] at he
+
+theorem pairIter_mem {p l o : Rev} (he : iterErr p l = false) (h : o ∈ (pairIter p l).2) :
     o = p ∧ p.archived = false ∧ p.rev < l.rev ∧
-    p.statusPaused = true ∧ p.available = false ∧ ControlsNothingIn p.controllerOf l.objects := by
+    p.statusPaused = true ∧ p.available = false ∧ ControlsNothingOf p.controllerOf l := by
   unfold pairIter at h
   split at h
   · simp at h
@@ -182,7 +192,9 @@ theorem pairIter_mem {p l o : Rev} (h : o ∈ (pairIter p l).2) :
       split at h
       · rename_i hs
         have hna' : p.archived = false := by simpa using hna
-        exact ⟨by simpa using h, hna', by omega, pairStep_true hna' hs⟩
+        have hps := pairStep_true hna' hs
+        have hsm := iterErr_false he hna' (by omega)
+        exact ⟨by simpa using h, hna', by omega, hps.1, hps.2.1, hps.2.2, fun hm => by rw [hsm] at hm; cases hm⟩
       · simp at h
 
 theorem scan_writes {d : List Rev} {w : Write} (h : w ∈ (scan d).1) : IsPause w := by
@@ -194,17 +206,19 @@ theorem scan_writes {d : List Rev} {w : Write} (h : w ∈ (scan d).1) : IsPause 
     · exact case1_writes h
     · split at h
       · simp at h
-      · simp only [List.mem_append] at h
-        rcases h with h | h
-        · exact pairIter_writes h
-        · exact ih h
+      · split at h
+        · simp at h
+        · simp only [List.mem_append] at h
+          rcases h with h | h
+          · exact pairIter_writes h
+          · exact ih h
 
 /-- Why the scan selected `o` from the descending list `d`. -/
 def ScanJust (d : List Rev) (o : Rev) : Prop :=
   o.statusPaused = true ∧ o.archived = false ∧
   ((∃ l ∈ d, l.available = true ∧ o.rev < l.rev ∧ o ∈ d) ∨
    (o.available = false ∧ ∃ pre l post, d = pre ++ l :: o :: post ∧ o.rev < l.rev ∧
-      ControlsNothingIn o.controllerOf l.objects))
+      ControlsNothingOf o.controllerOf l))
 
 theorem scan_just {d : List Rev} {o : Rev} (h : o ∈ (scan d).2) : ScanJust d o := by
   induction d with
@@ -219,15 +233,19 @@ theorem scan_just {d : List Rev} {o : Rev} (h : o ∈ (scan d).2) : ScanJust d o
     · split at h
       · simp at h
       · rename_i p rest'
-        simp only [List.mem_append] at h
-        rcases h with h | h
-        · obtain ⟨rfl, hna, hlt, hsp, hun, hc⟩ := pairIter_mem h
-          exact ⟨hsp, hna, Or.inr ⟨hun, [], l, rest', rfl, hlt, hc⟩⟩
-        · obtain ⟨hsp, hna, hj⟩ := ih h
-          refine ⟨hsp, hna, ?_⟩
-          rcases hj with ⟨y, hy, hyav, hlt, hod⟩ | ⟨hun, pre, y, post, hd, hlt, hc⟩
-          · exact Or.inl ⟨y, List.mem_cons_of_mem _ hy, hyav, hlt, List.mem_cons_of_mem _ hod⟩
-          · exact Or.inr ⟨hun, l :: pre, y, post, by rw [hd]; rfl, hlt, hc⟩
+        split at h
+        · simp at h
+        · rename_i he
+          have he' : iterErr p l = false := by simpa using he
+          simp only [List.mem_append] at h
+          rcases h with h | h
+          · obtain ⟨rfl, hna, hlt, hsp, hun, hc⟩ := pairIter_mem he' h
+            exact ⟨hsp, hna, Or.inr ⟨hun, [], l, rest', rfl, hlt, hc⟩⟩
+          · obtain ⟨hsp, hna, hj⟩ := ih h
+            refine ⟨hsp, hna, ?_⟩
+            rcases hj with ⟨y, hy, hyav, hlt, hod⟩ | ⟨hun, pre, y, post, hd, hlt, hc⟩
+            · exact Or.inl ⟨y, List.mem_cons_of_mem _ hy, hyav, hlt, List.mem_cons_of_mem _ hod⟩
+            · exact Or.inr ⟨hun, l :: pre, y, post, by rw [hd]; rfl, hlt, hc⟩
 
 /-- On a descending list the scan's reason is the specification's reason. -/
 theorem scanJust_justified {d : List Rev} {o : Rev}
@@ -461,6 +479,8 @@ structure Core (f : Rev → Rev) : Prop where
   statusPaused : ∀ r, (f r).statusPaused = r.statusPaused
   controllerOf : ∀ r, (f r).controllerOf = r.controllerOf
   objects : ∀ r, (f r).objects = r.objects
+  sliced : ∀ r, (f r).sliced = r.sliced
+  sliceMissing : ∀ r, (f r).sliceMissing = r.sliceMissing
   hashMatch : ∀ r, (f r).hashMatch = r.hashMatch
   terminating : ∀ r, (f r).terminating = r.terminating
 
@@ -482,7 +502,8 @@ theorem justified_map {f : Rev → Rev} (hf : Core f) {l : List Rev} {r : Rev}
   · obtain ⟨z0, hz0, rfl⟩ := List.mem_map.mp hz
     rw [hf.rev, hf.rev] at hzlt
     rw [hf.available] at hun
-    rw [hf.controllerOf, hf.objects] at hc
+    unfold ControlsNothingOf Rev.allObjects at hc ⊢
+    rw [hf.controllerOf, hf.objects, hf.sliced, hf.sliceMissing] at hc
     refine Or.inr ⟨hun, z0, hz0, ⟨hzlt, ?_⟩, hc⟩
     intro w hw hrw
     have := hzmin (f w) (List.mem_map.mpr ⟨w, hw, rfl⟩) (by rw [hf.rev, hf.rev]; exact hrw)
@@ -539,7 +560,16 @@ theorem sasc_of_asc_ne {l : List Rev} (h1 : Asc l) (h2 : l.Pairwise (fun a b => 
 /-! ## glue used by the property theorems -/
 
 /-- `objectSetsToArchive` as computed by `objectSetsToBeArchived(append(prev, cur))`. -/
-def toArchive (prev : List Rev) (c : Rev) : List Rev := (scan (sortAsc (prev ++ [c])).reverse).2
+def toArchive (prev : List Rev) (c : Rev) : List Rev :=
+  if scanErr (sortAsc (prev ++ [c])).reverse then []       -- error return: `[]adapters.ObjectSetAccessor{}`
+  else (scan (sortAsc (prev ++ [c])).reverse).2
+
+theorem toArchive_sub {prev : List Rev} {c o : Rev} (h : o ∈ toArchive prev c) :
+    o ∈ (scan (sortAsc (prev ++ [c])).reverse).2 := by
+  unfold toArchive at h
+  split at h
+  · cases h
+  · exact h
 
 /-- Every revision the scan selects is one of the revisions read and satisfies the property's
 archival condition. -/
@@ -549,7 +579,7 @@ theorem toArchive_justified {prev : List Rev} {c o : Rev} (h : o ∈ toArchive p
     List.pairwise_reverse.mpr (sortAsc_sorted _)
   have hm : ∀ x, x ∈ (sortAsc (prev ++ [c])).reverse ↔ x ∈ prev ++ [c] := by
     intro x; rw [List.mem_reverse, mem_sortAsc]
-  obtain ⟨ho, hj⟩ := scanJust_justified hd (scan_just h)
+  obtain ⟨ho, hj⟩ := scanJust_justified hd (scan_just (toArchive_sub h))
   exact ⟨(hm o).mp ho, justified_congr hm hj⟩
 
 /-- An `archive` write of a pass is addressed to a revision the scan selected. -/
@@ -559,16 +589,22 @@ theorem reconcile_archive_mem {prev : List Rev} {c : Rev} {limit : Option Int} {
   simp only [reconcile] at h
   split at h
   · exact absurd (scan_writes h) (by simp [IsPause])
-  · rcases List.mem_append.mp h with h | h
+  · rename_i he
+    split at h
     · exact absurd (scan_writes h) (by simp [IsPause])
-    · obtain ⟨o, ho, hid, _⟩ := markLoop_archive h
-      exact ⟨o, mem_sortAsc.mp ho, hid⟩
+    · rcases List.mem_append.mp h with h | h
+      · exact absurd (scan_writes h) (by simp [IsPause])
+      · obtain ⟨o, ho, hid, _⟩ := markLoop_archive h
+        refine ⟨o, ?_, hid⟩
+        unfold toArchive
+        rw [if_neg he]
+        exact mem_sortAsc.mp ho
 
 theorem Justified_of {all : List Rev} {r : Rev}
     (h : r.statusPaused = true ∧ (∃ y ∈ all, r.rev < y.rev) ∧
       ((∃ y ∈ all, r.rev < y.rev ∧ y.available = true) ∨
        (r.available = false ∧
-        ∃ y ∈ all, IsNextNewer all r y ∧ ControlsNothingIn r.controllerOf y.objects))) :
+        ∃ y ∈ all, IsNextNewer all r y ∧ ControlsNothingOf r.controllerOf y))) :
     Justified all r := h
 
 theorem id_inj {l : List Rev} (hn : (l.map (·.id)).Nodup) {a b : Rev} (ha : a ∈ l) (hb : b ∈ l)
@@ -588,10 +624,13 @@ are the identity and `prevObjectSets` is unaffected by the in-place sort. -/
 theorem reconcile_sorted {prev : List Rev} {c : Rev} (hs : SAsc (prev ++ [c]))
     (limit : Option Int) (fin : Bool) :
     reconcile prev (some c) limit fin =
-      if (toArchive prev c).isEmpty then ((scan (prev ++ [c]).reverse).1, false)
+      if (toArchive prev c).isEmpty then ((scan (prev ++ [c]).reverse).1, scanErr (prev ++ [c]).reverse)
       else ((scan (prev ++ [c]).reverse).1 ++ (markLoop prev limit fin (sortAsc (toArchive prev c)) []).1,
             (markLoop prev limit fin (sortAsc (toArchive prev c)) []).2) := by
   simp only [reconcile, toArchive, sortAsc_of_sorted _ hs.asc, List.take_left]
+  cases he : scanErr (prev ++ [c]).reverse
+  · simp only [Bool.false_eq_true, ↓reduceIte]
+  · simp
 
 /-- Shape of a controller pass: nothing, or only propagation writes, or propagation writes followed
 by the archive reconciler's pass on (previous, current) = (all but last, last) of the sorted listing. -/
